@@ -1,4 +1,5 @@
 import SaModel.Lemmas.C01Comb
+import SaModel.Lemmas.C01MapOps
 import SaModel.Spec.Interp
 /-
 R1 — the work-horse: every successful `push` keeps the builder state well formed and appends exactly ONE
@@ -8,42 +9,12 @@ Hypotheses, beside the state invariant `WFB`:
 * `Safe b` (schema property, see Build/Inv.lean): no dictionary with non-nullable keys can receive
   `serialize_default` — for such schemas the statement is false as it stands (placeholder key 0, see
   `Props/C01.lean: dict_placeholder_unstable`).
-* `rawOK x`: every raw key/value call stream (`SVal.mapRaw`, a malformed `SerializeMap` user) inside `x`
-  alternates key, value, key, value …  A non-alternating stream pushed into a MAP builder leaves keys and values
-  out of step, which is not a well-formed state (C03 excludes those streams, C16 covers them).
+No hypothesis on the value: since repo fix bcc3416 a MAP builder refuses every raw key/value call stream
+(`SVal.mapRaw`, a malformed `SerializeMap` user) that does not alternate key, value, key, value … (the `key_pending`
+flag, `pushMapOps`), so a SUCCESSFUL push has kept keys and values in step (the former hypothesis `rawOK x` is gone).
 -/
 namespace SaModel.Build
 open SaModel SaModel.Spec
-
-mutual
-/-- every raw key/value stream in the value alternates (true for every value without `mapRaw` nodes) -/
-def rawOK : SVal → Bool
-  | .some v => rawOK v
-  | .newtypeStruct _ v => rawOK v
-  | .seq xs => rawOKs xs
-  | .tuple xs => rawOKs xs
-  | .tupleStruct _ xs => rawOKs xs
-  | .record _ fs => rawOKf fs
-  | .map es => rawOKe es
-  | .mapRaw ops => isAlternating ops && rawOKo ops
-  | .newtypeVariant _ _ _ v => rawOK v
-  | .tupleVariant _ _ _ xs => rawOKs xs
-  | .structVariant _ _ _ fs => rawOKf fs
-  | _ => true
-def rawOKs : SVals → Bool
-  | .nil => true
-  | .cons v r => rawOK v && rawOKs r
-def rawOKf : SFields → Bool
-  | .nil => true
-  | .cons _ _ v r => rawOK v && rawOKf r
-def rawOKe : SEntries → Bool
-  | .nil => true
-  | .cons k v r => rawOK k && rawOK v && rawOKe r
-def rawOKo : SMapOps → Bool
-  | .nil => true
-  | .key k r => rawOK k && rawOKo r
-  | .value v r => rawOK v && rawOKo r
-end
 
 /-- map entries: keys and values grow in step, the open offset by the number of keys -/
 def MapOK (pm : List Int → B → B → R (List Int × B × B)) : Prop :=
@@ -89,66 +60,63 @@ theorem FieldsOK.next {pf : SS → R SS} (h : FieldsOK pf) (n : Nat) : FieldsOK 
   exact ⟨a, b⟩
 
 mutual
-theorem push_appends (ext : Ext) : ∀ (x : SVal) (b b' : B), rawOK x = true → WFB b → Safe b → push ext b x = .ok b' →
+theorem push_appends (ext : Ext) : ∀ (x : SVal) (b b' : B), WFB b → Safe b → push ext b x = .ok b' →
     WFB b' ∧ ∃ lv, dec b' = dec b ++ [lv]
-  | .some v, b, b', hok, hwf, hs, h => by
-    rw [push] at h; exact push_appends ext v b b' (by simpa [rawOK] using hok) hwf hs h
-  | .newtypeStruct _ v, b, b', hok, hwf, hs, h => by
-    rw [push] at h; exact push_appends ext v b b' (by simpa [rawOK] using hok) hwf hs h
-  | .none, b, b', _, hwf, hs, h => by
+  | .some v, b, b', hwf, hs, h => by
+    rw [push] at h; exact push_appends ext v b b' hwf hs h
+  | .newtypeStruct _ v, b, b', hwf, hs, h => by
+    rw [push] at h; exact push_appends ext v b b' hwf hs h
+  | .none, b, b', hwf, hs, h => by
     rw [push] at h
     obtain ⟨a, d⟩ := pushNone_appends b b' hwf hs h
     exact ⟨a, _, d⟩
-  | .unit, b, b', _, hwf, hs, h => by
+  | .unit, b, b', hwf, hs, h => by
     cases b with
     | unknownVariant p => simp [push, ctx_ok, fail] at h
     | _ =>
       simp only [push] at h
       obtain ⟨a, d⟩ := pushNone_appends _ b' hwf hs h
       exact ⟨a, _, d⟩
-  | .seq xs, b, b', hok, hwf, hs, h => by
+  | .seq xs, b, b', hwf, hs, h => by
     rw [push, ctx_ok] at h
-    have hok' : rawOKs xs = true := by simpa [rawOK] using hok
-    exact seqLikeWith_appends (pushElems_appends ext xs hok') (pushCountElems_appends ext xs hok')
-      (pushTupleElems_appends ext xs hok') b _ b' hwf hs h
-  | .tuple xs, b, b', hok, hwf, hs, h => by
+    exact seqLikeWith_appends (pushElems_appends ext xs) (pushCountElems_appends ext xs)
+      (pushTupleElems_appends ext xs) b _ b' hwf hs h
+  | .tuple xs, b, b', hwf, hs, h => by
     rw [push, ctx_ok] at h
-    have hok' : rawOKs xs = true := by simpa [rawOK] using hok
-    exact seqLikeWith_appends (pushElems_appends ext xs hok') (pushCountElems_appends ext xs hok')
-      (pushTupleElems_appends ext xs hok') b _ b' hwf hs h
-  | .tupleStruct _ xs, b, b', hok, hwf, hs, h => by
+    exact seqLikeWith_appends (pushElems_appends ext xs) (pushCountElems_appends ext xs)
+      (pushTupleElems_appends ext xs) b _ b' hwf hs h
+  | .tupleStruct _ xs, b, b', hwf, hs, h => by
     rw [push, ctx_ok] at h
-    have hok' : rawOKs xs = true := by simpa [rawOK] using hok
-    exact seqLikeWith_appends (pushElems_appends ext xs hok') (pushCountElems_appends ext xs hok')
-      (pushTupleElems_appends ext xs hok') b _ b' hwf hs h
-  | .record _ fs, b, b', hok, hwf, hs, h => by
+    exact seqLikeWith_appends (pushElems_appends ext xs) (pushCountElems_appends ext xs)
+      (pushTupleElems_appends ext xs) b _ b' hwf hs h
+  | .record _ fs, b, b', hwf, hs, h => by
     rw [push, ctx_ok] at h
-    exact recordWith_appends (pushFields_appends ext fs (by simpa [rawOK] using hok)) b b' hwf hs h
-  | .map es, b, b', hok, hwf, hs, h => by
-    have hok' : rawOKe es = true := by simpa [rawOK] using hok
+    exact recordWith_appends (pushFields_appends ext fs) b b' hwf hs h
+  | .map es, b, b', hwf, hs, h => by
     cases b with
     | struct p len v fs cached next seen =>
       simp only [push, ctx_ok] at h
       exact record_appends (pf := fun s => pushStructEntries ext { s with next := UNKNOWN_KEY } es) hwf hs
-        ((pushStructEntries_appends ext es hok').next _) h
+        ((pushStructEntries_appends ext es).next _) h
     | map p mm v offs ks vs =>
       simp only [push, ctx_ok] at h
       exact map_row_appends (pm := fun offs ks vs => pushMapEntries ext offs ks vs es) hwf hs
-        (pushMapEntries_appends ext es hok') h
+        (pushMapEntries_appends ext es) h
     | _ => simp [push, ctx_ok, notSupported, fail] at h
-  | .mapRaw ops, b, b', hok, hwf, hs, h => by
-    have hok' : isAlternating ops = true ∧ rawOKo ops = true := by simpa [rawOK] using hok
+  | .mapRaw ops, b, b', hwf, hs, h => by
     cases b with
     | struct p len v fs cached next seen =>
       simp only [push, ctx_ok] at h
       exact record_appends (pf := fun s => pushStructOps ext { s with next := UNKNOWN_KEY } ops) hwf hs
-        ((pushStructOps_appends ext ops hok'.2).next _) h
+        ((pushStructOps_appends ext ops).next _) h
     | map p mm v offs ks vs =>
       simp only [push, ctx_ok] at h
-      exact map_row_appends (pm := fun offs ks vs => pushMapOps ext offs ks vs ops) hwf hs
-        (pushMapOps_appends ext ops hok'.1 hok'.2) h
+      refine map_row_appends (pm := fun offs ks vs => pushMapOps ext false offs ks vs ops) hwf hs ?_ h
+      intro base l ks vs r hk hv hsk hsv h
+      obtain ⟨g1, g2, lk, lw, hlen, rest⟩ := pushMapOps_appends_gen ext ops false base l ks vs r hk hv hsk hsv h
+      exact ⟨g1, g2, lk, lw, by simpa using hlen, rest⟩
     | _ => simp [push, ctx_ok, notSupported, fail] at h
-  | .unitVariant n i vn, b, b', _, hwf, hs, h => by
+  | .unitVariant n i vn, b, b', hwf, hs, h => by
     cases b with
     | union p fs types offs cur =>
       simp only [push, ctx_ok] at h
@@ -165,17 +133,16 @@ theorem push_appends (ext : Ext) : ∀ (x : SVal) (b b' : B), rawOK x = true →
       simp only [push, ctx_ok] at h
       obtain ⟨a, lv, d, _⟩ := pushScalar_appends ext _ _ b' hwf hs h
       exact ⟨a, lv, d⟩
-  | .newtypeVariant _ i _ v, b, b', hok, hwf, hs, h => by
+  | .newtypeVariant _ i _ v, b, b', hwf, hs, h => by
     cases b with
     | union p fs types offs cur =>
       simp only [push, ctx_ok] at h
       exact union_row_appends (pc := fun c => push ext c v) hwf hs
-        (StepOK.of_push (fun c c' => push_appends ext v c c' (by simpa [rawOK] using hok))) h
+        (StepOK.of_push (fun c c' => push_appends ext v c c')) h
     | bytes _ ty _ _ _ => simp only [push, ctx_ok] at h; split at h <;> simp [notSupported, fail] at h
     | bytesView _ ty _ _ _ => simp only [push, ctx_ok] at h; split at h <;> simp [notSupported, fail] at h
     | _ => simp [push, ctx_ok, notSupported, fail] at h
-  | .tupleVariant _ i _ xs, b, b', hok, hwf, hs, h => by
-    have hok' : rawOKs xs = true := by simpa [rawOK] using hok
+  | .tupleVariant _ i _ xs, b, b', hwf, hs, h => by
     cases b with
     | union p fs types offs cur =>
       simp only [push, ctx_ok] at h
@@ -183,8 +150,8 @@ theorem push_appends (ext : Ext) : ∀ (x : SVal) (b b' : B), rawOK x = true →
         (fun el c => pushCountElems ext el c xs) (fun s => pushTupleElems ext s xs) (u8All xs) c .tupleStruct)) hwf hs ?_ h
       intro c c' hw hsc hc
       rw [ctx_ok] at hc
-      obtain ⟨a, d⟩ := seqLikeWith_appends (pushElems_appends ext xs hok') (pushCountElems_appends ext xs hok')
-        (pushTupleElems_appends ext xs hok') c _ c' hw hsc hc
+      obtain ⟨a, d⟩ := seqLikeWith_appends (pushElems_appends ext xs) (pushCountElems_appends ext xs)
+        (pushTupleElems_appends ext xs) c _ c' hw hsc hc
       refine ⟨a, Safe.of_takeRest ?_ hsc, d⟩
       exact seqLikeWith_takeRest (fun large el offs r hr => pushElems_takeRest ext xs large el offs r hr)
         (fun el c r hr => pushCountElems_takeRest ext xs el c r hr)
@@ -192,21 +159,20 @@ theorem push_appends (ext : Ext) : ∀ (x : SVal) (b b' : B), rawOK x = true →
     | bytes _ ty _ _ _ => simp only [push, ctx_ok] at h; split at h <;> simp [notSupported, fail] at h
     | bytesView _ ty _ _ _ => simp only [push, ctx_ok] at h; split at h <;> simp [notSupported, fail] at h
     | _ => simp [push, ctx_ok, notSupported, fail] at h
-  | .structVariant _ i _ fields, b, b', hok, hwf, hs, h => by
-    have hok' : rawOKf fields = true := by simpa [rawOK] using hok
+  | .structVariant _ i _ fields, b, b', hwf, hs, h => by
     cases b with
     | union p fs types offs cur =>
       simp only [push, ctx_ok] at h
       refine union_row_appends (pc := fun c => ctx c.ann (recordWith (fun s => pushFields ext s fields) c)) hwf hs ?_ h
       intro c c' hw hsc hc
       rw [ctx_ok] at hc
-      obtain ⟨a, d⟩ := recordWith_appends (pushFields_appends ext fields hok') c c' hw hsc hc
+      obtain ⟨a, d⟩ := recordWith_appends (pushFields_appends ext fields) c c' hw hsc hc
       refine ⟨a, Safe.of_takeRest ?_ hsc, d⟩
       exact recordWith_takeRest (fun s s' hs => pushFields_takeRest ext fields s s' hs) c c' hc
     | bytes _ ty _ _ _ => simp only [push, ctx_ok] at h; split at h <;> simp [notSupported, fail] at h
     | bytesView _ ty _ _ _ => simp only [push, ctx_ok] at h; split at h <;> simp [notSupported, fail] at h
     | _ => simp [push, ctx_ok, notSupported, fail] at h
-  | .bytes bs, b, b', _, hwf, hs, h => by
+  | .bytes bs, b, b', hwf, hs, h => by
     cases b with
     | list p large fm v offs el =>
       simp only [push, ctx_ok] at h
@@ -229,211 +195,208 @@ theorem push_appends (ext : Ext) : ∀ (x : SVal) (b b' : B), rawOK x = true →
       simp only [push, ctx_ok] at h
       obtain ⟨a, lv, d, _⟩ := pushScalar_appends ext _ _ b' hwf hs h
       exact ⟨a, lv, d⟩
-  | .bool x, b, b', _, hwf, hs, h => by
+  | .bool x, b, b', hwf, hs, h => by
     rw [push, ctx_ok] at h
     obtain ⟨a, lv, d, _⟩ := pushScalar_appends ext _ _ b' hwf hs h
     exact ⟨a, lv, d⟩
-  | .int t x, b, b', _, hwf, hs, h => by
+  | .int t x, b, b', hwf, hs, h => by
     rw [push, ctx_ok] at h
     obtain ⟨a, lv, d, _⟩ := pushScalar_appends ext _ _ b' hwf hs h
     exact ⟨a, lv, d⟩
-  | .f32 x, b, b', _, hwf, hs, h => by
+  | .f32 x, b, b', hwf, hs, h => by
     rw [push, ctx_ok] at h
     obtain ⟨a, lv, d, _⟩ := pushScalar_appends ext _ _ b' hwf hs h
     exact ⟨a, lv, d⟩
-  | .f64 x, b, b', _, hwf, hs, h => by
+  | .f64 x, b, b', hwf, hs, h => by
     rw [push, ctx_ok] at h
     obtain ⟨a, lv, d, _⟩ := pushScalar_appends ext _ _ b' hwf hs h
     exact ⟨a, lv, d⟩
-  | .char x, b, b', _, hwf, hs, h => by
+  | .char x, b, b', hwf, hs, h => by
     rw [push, ctx_ok] at h
     obtain ⟨a, lv, d, _⟩ := pushScalar_appends ext _ _ b' hwf hs h
     exact ⟨a, lv, d⟩
-  | .str x, b, b', _, hwf, hs, h => by
+  | .str x, b, b', hwf, hs, h => by
     rw [push, ctx_ok] at h
     obtain ⟨a, lv, d, _⟩ := pushScalar_appends ext _ _ b' hwf hs h
     exact ⟨a, lv, d⟩
-  | .unitStruct x, b, b', _, hwf, hs, h => by
+  | .unitStruct x, b, b', hwf, hs, h => by
     rw [push, ctx_ok] at h
     obtain ⟨a, lv, d, _⟩ := pushScalar_appends ext _ _ b' hwf hs h
     exact ⟨a, lv, d⟩
 
-theorem pushElems_appends (ext : Ext) : ∀ (xs : SVals), rawOKs xs = true →
+theorem pushElems_appends (ext : Ext) : ∀ (xs : SVals),
     ElemsOK (fun large el offs => pushElems ext large el offs xs)
-  | .nil, _ => by
+  | .nil => by
     intro large el base l r hwf _ h
     simp only [pushElems] at h; cases h
     exact ⟨hwf, [], by simp, by simp⟩
-  | .cons x rest, hok => by
+  | .cons x rest => by
     intro large el base l r hwf hs h
-    have hok' : rawOK x = true ∧ rawOKs rest = true := by simpa [rawOKs] using hok
     simp only [pushElems] at h
     obtain ⟨o', h1, h⟩ := (bind_ok _ _ _).1 h
     obtain ⟨el', h2, h⟩ := (bind_ok _ _ _).1 h
     have := incrementLast_snoc h1
     subst this
-    obtain ⟨hel', lv, hdec⟩ := push_appends ext x el el' hok'.1 hwf hs h2
+    obtain ⟨hel', lv, hdec⟩ := push_appends ext x el el' hwf hs h2
     have hs' := Safe.of_takeRest (push_takeRest ext x el el' h2) hs
-    obtain ⟨hr, ls, hd, ho⟩ := pushElems_appends ext rest hok'.2 large el' base (l + 1) r hel' hs' h
+    obtain ⟨hr, ls, hd, ho⟩ := pushElems_appends ext rest large el' base (l + 1) r hel' hs' h
     refine ⟨hr, lv :: ls, by rw [hd, hdec]; simp, ?_⟩
     rw [ho]; simp; omega
 
-theorem pushCountElems_appends (ext : Ext) : ∀ (xs : SVals), rawOKs xs = true →
+theorem pushCountElems_appends (ext : Ext) : ∀ (xs : SVals),
     CountOK (fun el c => pushCountElems ext el c xs)
-  | .nil, _ => by
+  | .nil => by
     intro el c r hwf _ h
     simp only [pushCountElems] at h; cases h
     exact ⟨hwf, [], by simp, by simp⟩
-  | .cons x rest, hok => by
+  | .cons x rest => by
     intro el c r hwf hs h
-    have hok' : rawOK x = true ∧ rawOKs rest = true := by simpa [rawOKs] using hok
     simp only [pushCountElems] at h
     obtain ⟨el', h2, h⟩ := (bind_ok _ _ _).1 h
-    obtain ⟨hel', lv, hdec⟩ := push_appends ext x el el' hok'.1 hwf hs h2
+    obtain ⟨hel', lv, hdec⟩ := push_appends ext x el el' hwf hs h2
     have hs' := Safe.of_takeRest (push_takeRest ext x el el' h2) hs
-    obtain ⟨hr, ls, hd, ho⟩ := pushCountElems_appends ext rest hok'.2 el' (c + 1) r hel' hs' h
+    obtain ⟨hr, ls, hd, ho⟩ := pushCountElems_appends ext rest el' (c + 1) r hel' hs' h
     refine ⟨hr, lv :: ls, by rw [hd, hdec]; simp, ?_⟩
     rw [ho]; simp; omega
 
-theorem pushTupleElems_appends (ext : Ext) : ∀ (xs : SVals), rawOKs xs = true →
+theorem pushTupleElems_appends (ext : Ext) : ∀ (xs : SVals),
     FieldsOK (fun s => pushTupleElems ext s xs)
-  | .nil, _ => by
+  | .nil => by
     intro fs0 s adds s' hm h
     simp only [pushTupleElems] at h; cases h
     exact ⟨⟨adds, hm⟩, Same.refl _⟩
-  | .cons x rest, hok => by
+  | .cons x rest => by
     intro fs0 s adds s' hm h
-    have hok' : rawOK x = true ∧ rawOKs rest = true := by simpa [rawOKs] using hok
     simp only [pushTupleElems] at h
     split at h
     · obtain ⟨s1, h1, h⟩ := (bind_ok _ _ _).1 h
       obtain ⟨⟨adds1, hm1⟩, hsame1⟩ := SS.element_mid hm
-        (StepOK.of_push (fun c c' => push_appends ext x c c' hok'.1)) h1
-      obtain ⟨a, hsame⟩ := pushTupleElems_appends ext rest hok'.2 fs0 s1 adds1 s' hm1 h
+        (StepOK.of_push (fun c c' => push_appends ext x c c')) h1
+      obtain ⟨a, hsame⟩ := pushTupleElems_appends ext rest fs0 s1 adds1 s' hm1 h
       exact ⟨a, hsame.trans hsame1⟩
-    · exact pushTupleElems_appends ext rest hok'.2 fs0 s adds s' hm h
+    · exact pushTupleElems_appends ext rest fs0 s adds s' hm h
 
-theorem pushFields_appends (ext : Ext) : ∀ (fs : SFields), rawOKf fs = true →
+theorem pushFields_appends (ext : Ext) : ∀ (fs : SFields),
     FieldsOK (fun s => pushFields ext s fs)
-  | .nil, _ => by
+  | .nil => by
     intro fs0 s adds s' hm h
     simp only [pushFields] at h; cases h
     exact ⟨⟨adds, hm⟩, Same.refl _⟩
-  | .cons key al x rest, hok => by
+  | .cons key al x rest => by
     intro fs0 s adds s' hm h
-    have hok' : rawOK x = true ∧ rawOKf rest = true := by simpa [rawOKf] using hok
     simp only [pushFields] at h
     have hl := (SaModel.Props.C11Front.lookup_sound s.fields.names s.cached s.next (key, al) hm.nodup hm.cache).2
     split at h
     · rename_i cached' heq
       rw [heq] at hl
-      obtain ⟨a, hsame⟩ := pushFields_appends ext rest hok'.2 fs0 _ adds s' (hm.cached cached' hl) h
+      obtain ⟨a, hsame⟩ := pushFields_appends ext rest fs0 _ adds s' (hm.cached cached' hl) h
       exact ⟨a, hsame⟩
     · rename_i idx cached' heq
       rw [heq] at hl
       obtain ⟨s1, h1, h⟩ := (bind_ok _ _ _).1 h
       obtain ⟨⟨adds1, hm1⟩, hsame1⟩ := SS.element_mid (hm.cached cached' hl)
-        (StepOK.of_push (fun c c' => push_appends ext x c c' hok'.1)) h1
-      obtain ⟨a, hsame⟩ := pushFields_appends ext rest hok'.2 fs0 s1 adds1 s' hm1 h
+        (StepOK.of_push (fun c c' => push_appends ext x c c')) h1
+      obtain ⟨a, hsame⟩ := pushFields_appends ext rest fs0 s1 adds1 s' hm1 h
       exact ⟨a, hsame.trans hsame1⟩
 
-theorem pushStructEntries_appends (ext : Ext) : ∀ (es : SEntries), rawOKe es = true →
+theorem pushStructEntries_appends (ext : Ext) : ∀ (es : SEntries),
     FieldsOK (fun s => pushStructEntries ext s es)
-  | .nil, _ => by
+  | .nil => by
     intro fs0 s adds s' hm h
     simp only [pushStructEntries] at h; cases h
     exact ⟨⟨adds, hm⟩, Same.refl _⟩
-  | .cons k x rest, hok => by
+  | .cons k x rest => by
     intro fs0 s adds s' hm h
-    have hok' : (rawOK k = true ∧ rawOK x = true) ∧ rawOKe rest = true := by simpa [rawOKe] using hok
     simp only [pushStructEntries] at h
     obtain ⟨key, _, h⟩ := (bind_ok _ _ _).1 h
     split at h
-    · obtain ⟨a, hsame⟩ := pushStructEntries_appends ext rest hok'.2 fs0 _ adds s' (hm.next _) h
+    · obtain ⟨a, hsame⟩ := pushStructEntries_appends ext rest fs0 _ adds s' (hm.next _) h
       exact ⟨a, hsame⟩
     · obtain ⟨s1, h1, h⟩ := (bind_ok _ _ _).1 h
       obtain ⟨⟨adds1, hm1⟩, hsame1⟩ := SS.element_mid hm
-        (StepOK.of_push (fun c c' => push_appends ext x c c' hok'.1.2)) h1
-      obtain ⟨a, hsame⟩ := pushStructEntries_appends ext rest hok'.2 fs0 _ adds1 s' (hm1.next _) h
+        (StepOK.of_push (fun c c' => push_appends ext x c c')) h1
+      obtain ⟨a, hsame⟩ := pushStructEntries_appends ext rest fs0 _ adds1 s' (hm1.next _) h
       exact ⟨a, hsame.trans hsame1⟩
 
-theorem pushStructOps_appends (ext : Ext) : ∀ (ops : SMapOps), rawOKo ops = true →
+theorem pushStructOps_appends (ext : Ext) : ∀ (ops : SMapOps),
     FieldsOK (fun s => pushStructOps ext s ops)
-  | .nil, _ => by
+  | .nil => by
     intro fs0 s adds s' hm h
     simp only [pushStructOps] at h; cases h
     exact ⟨⟨adds, hm⟩, Same.refl _⟩
-  | .key k rest, hok => by
+  | .key k rest => by
     intro fs0 s adds s' hm h
-    have hok' : rawOK k = true ∧ rawOKo rest = true := by simpa [rawOKo] using hok
     simp only [pushStructOps] at h
     obtain ⟨key, _, h⟩ := (bind_ok _ _ _).1 h
-    obtain ⟨a, hsame⟩ := pushStructOps_appends ext rest hok'.2 fs0 _ adds s' (hm.next _) h
+    obtain ⟨a, hsame⟩ := pushStructOps_appends ext rest fs0 _ adds s' (hm.next _) h
     exact ⟨a, hsame⟩
-  | .value x rest, hok => by
+  | .value x rest => by
     intro fs0 s adds s' hm h
-    have hok' : rawOK x = true ∧ rawOKo rest = true := by simpa [rawOKo] using hok
     simp only [pushStructOps] at h
     split at h
     · obtain ⟨s1, h1, h⟩ := (bind_ok _ _ _).1 h
       obtain ⟨⟨adds1, hm1⟩, hsame1⟩ := SS.element_mid hm
-        (StepOK.of_push (fun c c' => push_appends ext x c c' hok'.1)) h1
-      obtain ⟨a, hsame⟩ := pushStructOps_appends ext rest hok'.2 fs0 _ adds1 s' (hm1.next _) h
+        (StepOK.of_push (fun c c' => push_appends ext x c c')) h1
+      obtain ⟨a, hsame⟩ := pushStructOps_appends ext rest fs0 _ adds1 s' (hm1.next _) h
       exact ⟨a, hsame.trans hsame1⟩
-    · obtain ⟨a, hsame⟩ := pushStructOps_appends ext rest hok'.2 fs0 _ adds s' (hm.next _) h
+    · obtain ⟨a, hsame⟩ := pushStructOps_appends ext rest fs0 _ adds s' (hm.next _) h
       exact ⟨a, hsame⟩
 
-theorem pushMapEntries_appends (ext : Ext) : ∀ (es : SEntries), rawOKe es = true →
+theorem pushMapEntries_appends (ext : Ext) : ∀ (es : SEntries),
     MapOK (fun offs ks vs => pushMapEntries ext offs ks vs es)
-  | .nil, _ => by
+  | .nil => by
     intro base l ks vs r hk hv _ _ h
     simp only [pushMapEntries] at h; cases h
     exact ⟨hk, hv, [], [], rfl, by simp, by simp, by simp⟩
-  | .cons k x rest, hok => by
+  | .cons k x rest => by
     intro base l ks vs r hk hv hsk hsv h
-    have hok' : (rawOK k = true ∧ rawOK x = true) ∧ rawOKe rest = true := by simpa [rawOKe] using hok
     simp only [pushMapEntries] at h
     obtain ⟨o', h1, h⟩ := (bind_ok _ _ _).1 h
     obtain ⟨ks', h2, h⟩ := (bind_ok _ _ _).1 h
     obtain ⟨vs', h3, h⟩ := (bind_ok _ _ _).1 h
     have := incrementLast_snoc h1
     subst this
-    obtain ⟨hk', lk0, hdk⟩ := push_appends ext k ks ks' hok'.1.1 hk hsk h2
-    obtain ⟨hv', lv0, hdv⟩ := push_appends ext x vs vs' hok'.1.2 hv hsv h3
+    obtain ⟨hk', lk0, hdk⟩ := push_appends ext k ks ks' hk hsk h2
+    obtain ⟨hv', lv0, hdv⟩ := push_appends ext x vs vs' hv hsv h3
     have hsk' := Safe.of_takeRest (push_takeRest ext k ks ks' h2) hsk
     have hsv' := Safe.of_takeRest (push_takeRest ext x vs vs' h3) hsv
     obtain ⟨g1, g2, lk, lw, hlen, gk, gv, go⟩ :=
-      pushMapEntries_appends ext rest hok'.2 base (l + 1) ks' vs' r hk' hv' hsk' hsv' h
+      pushMapEntries_appends ext rest base (l + 1) ks' vs' r hk' hv' hsk' hsv' h
     refine ⟨g1, g2, lk0 :: lk, lv0 :: lw, by simp [hlen], by rw [gk, hdk]; simp, by rw [gv, hdv]; simp, ?_⟩
     rw [go]; simp; omega
 
-theorem pushMapOps_appends (ext : Ext) : ∀ (ops : SMapOps), isAlternating ops = true → rawOKo ops = true →
-    MapOK (fun offs ks vs => pushMapOps ext offs ks vs ops)
-  | .nil, _, _ => by
-    intro base l ks vs r hk hv _ _ h
-    simp only [pushMapOps] at h; cases h
+/-- a raw key/value stream into a map builder, from any state of the `key_pending` flag: when it is accepted, the
+values received are one more than the keys exactly if a key was pending at the start -/
+theorem pushMapOps_appends_gen (ext : Ext) : ∀ (ops : SMapOps) (pd : Bool) (base : List Int) (l : Int) (ks vs : B)
+    (r : List Int × B × B), WFB ks → WFB vs → Safe ks → Safe vs → pushMapOps ext pd (base ++ [l]) ks vs ops = .ok r →
+    WFB r.2.1 ∧ WFB r.2.2 ∧ ∃ lk lw : List LVal, lw.length = lk.length + (if pd then 1 else 0) ∧
+      dec r.2.1 = dec ks ++ lk ∧ dec r.2.2 = dec vs ++ lw ∧ r.1 = base ++ [l + (lk.length : Int)]
+  | .nil, pd, base, l, ks, vs, r, hk, hv, _, _, h => by
+    obtain ⟨rfl, rfl⟩ := pushMapOps_nil_ok h
     exact ⟨hk, hv, [], [], rfl, by simp, by simp, by simp⟩
-  | .key k (.value x rest), halt, hok => by
-    intro base l ks vs r hk hv hsk hsv h
-    have hok' : rawOK k = true ∧ rawOK x = true ∧ rawOKo rest = true := by simpa [rawOKo] using hok
-    have halt' : isAlternating rest = true := by simpa [isAlternating] using halt
-    simp only [pushMapOps] at h
-    obtain ⟨o', h1, h⟩ := (bind_ok _ _ _).1 h
-    obtain ⟨ks', h2, h⟩ := (bind_ok _ _ _).1 h
-    obtain ⟨vs', h3, h⟩ := (bind_ok _ _ _).1 h
+  | .key k rest, pd, base, l, ks, vs, r, hk, hv, hsk, hsv, h => by
+    obtain ⟨rfl, o', ks', h1, h2, h⟩ := pushMapOps_key_ok h
     have := incrementLast_snoc h1
     subst this
-    obtain ⟨hk', lk0, hdk⟩ := push_appends ext k ks ks' hok'.1 hk hsk h2
-    obtain ⟨hv', lv0, hdv⟩ := push_appends ext x vs vs' hok'.2.1 hv hsv h3
+    obtain ⟨hk', lk0, hdk⟩ := push_appends ext k ks ks' hk hsk h2
     have hsk' := Safe.of_takeRest (push_takeRest ext k ks ks' h2) hsk
+    obtain ⟨g1, g2, lk, lw, hlen, gk, gv, go⟩ :=
+      pushMapOps_appends_gen ext rest true base (l + 1) ks' vs r hk' hv hsk' hsv h
+    refine ⟨g1, g2, lk0 :: lk, lw, by simpa using hlen, by rw [gk, hdk]; simp, gv, ?_⟩
+    rw [go]; simp; omega
+  | .value x rest, pd, base, l, ks, vs, r, hk, hv, hsk, hsv, h => by
+    obtain ⟨rfl, vs', h3, h⟩ := pushMapOps_value_ok h
+    obtain ⟨hv', lv0, hdv⟩ := push_appends ext x vs vs' hv hsv h3
     have hsv' := Safe.of_takeRest (push_takeRest ext x vs vs' h3) hsv
     obtain ⟨g1, g2, lk, lw, hlen, gk, gv, go⟩ :=
-      pushMapOps_appends ext rest halt' hok'.2.2 base (l + 1) ks' vs' r hk' hv' hsk' hsv' h
-    refine ⟨g1, g2, lk0 :: lk, lv0 :: lw, by simp [hlen], by rw [gk, hdk]; simp, by rw [gv, hdv]; simp, ?_⟩
-    rw [go]; simp; omega
-  | .key _ .nil, halt, _ => by simp [isAlternating] at halt
-  | .key _ (.key _ _), halt, _ => by simp [isAlternating] at halt
-  | .value _ _, halt, _ => by simp [isAlternating] at halt
+      pushMapOps_appends_gen ext rest false base l ks vs' r hk hv' hsk hsv' h
+    refine ⟨g1, g2, lk, lv0 :: lw, by simpa using hlen, gk, by rw [gv, hdv]; simp, go⟩
 end
+
+/-- one map value (`serialize_map_start` resets the flag): an ACCEPTED raw stream has kept keys and values in step -/
+theorem pushMapOps_appends (ext : Ext) (ops : SMapOps) : MapOK (fun offs ks vs => pushMapOps ext false offs ks vs ops) := by
+  intro base l ks vs r hk hv hsk hsv h
+  obtain ⟨g1, g2, lk, lw, hlen, rest⟩ := pushMapOps_appends_gen ext ops false base l ks vs r hk hv hsk hsv h
+  exact ⟨g1, g2, lk, lw, by simpa using hlen, rest⟩
 
 end SaModel.Build
